@@ -341,11 +341,10 @@ func verifLemmaBitStringRoundTrip(b BitString) (r BitString, err error) {
 	return parseBitString(dst)
 }
 
-// BerMarshalWithParams walks its argument by reflection (not yet under contract): callers rely only
-// on "error, or the encoding of val"; that it does not panic on CHF-built records is an assumption
-// of C11, stated in the evidence.
-// @ func BerMarshalWithParams [C03 C11]
-// @   trusted
+// BerMarshalWithParams: "error and no bytes, or the encoding": checked against the code, with makeField
+// by contract (reflect opaque) and the encoder interface by its assumed method contracts - it does not
+// panic in its own code and allocates exactly Len() octets for Encode.
+// @ func BerMarshalWithParams [C03 C04 C11]
 // @   ensures result1 != nil ==> len(result0) == 0
 
 // ---- composite encoders over the `encoder` interface (C04) -------------------------------------------
@@ -416,3 +415,8 @@ func specHolds[T any](v reflect.Value) bool {
 //@   linear s
 //@   loop 0: invariant 0 <= i && len(s) == structType.NumField()
 //@   loop 1: invariant 0 <= i && len(s) == v.Len()
+
+// UnmarshalWithParams / Unmarshal: the entry points hand the bytes to ParseField unchanged (C16).
+//@ func UnmarshalWithParams [C16]
+//@ func Unmarshal [C16]
+//@ func BerMarshal [C04]
